@@ -914,7 +914,7 @@ def finalize(m, tier, seed):
                factor_nonpoly_other_exception_types=sorted(m.sets.get('factor/nonpoly/other-exception-types', ())),
                marginal=c.get('marginal', 0), marginal_fd=c.get('marginal-fd', 0), generator_rejected_constructions=c.get('generator/rejected-constructions', 0),
                cases_skipped_deadline=c.get('cases_skipped_deadline', 0), harness_exceptions=c.get('harness-exceptions', 0),
-               watchdog_skipped=sub('watchdog-skipped'),
+               watchdog_skipped=dict(total=c.get('watchdog-skipped', 0), **sub('watchdog-skipped/')),
                arguments_metadata_surprises=c.get('replace/arguments-metadata/surprise', 0) + c.get('linearize/arguments-metadata/surprise', 0)
                + c.get('factor/arguments-metadata/surprise', 0) + c.get('spellings/arguments-metadata/differs-from-dict', 0))
     n = NCASES[tier]
